@@ -3,5 +3,5 @@ Require Import GeosV.Lib.GeomDefs GeosV.Lib.LocateDefs GeosV.Lib.ValidDefs GeosV
 Require Extraction.
 Require Import ExtrOcamlBasic.
 Extraction "xc03.ml" overlay_check unary_check membership_check overlay_verdict area_laws valid_geom valid_detail rule_code
-  op_of_code op_code boolop mem expected far_inputs near_geom result_dim empty_shortcut shape_ok
+  op_of_code op_code boolop mem expected far_inputs stable_inputs near_geom result_dim empty_shortcut shape_ok
   geom_area2 geom_perim1 side_witnesses low_witnesses sample_witnesses dimension is_empty loc_h.
